@@ -85,3 +85,8 @@ where
 {
     crate::par_sort::par_quicksort(v, is_less, canceled)
 }
+
+/// `MultiPattern::status()` as 0 = Unchanged, 1 = Update, 2 = Rescore
+pub fn pattern_status(pattern: &crate::pattern::MultiPattern) -> u8 {
+    pattern.status() as u8
+}
